@@ -35,7 +35,12 @@ Part 2, invalid input (spec/Reject.tla, spec/Reject_Trace.tla):
           Every name is used in every role; the TLC-generated sequences are rotated over the names.
           world "model": Country / Sector / AddVariable calls on a real Model; invalid = duplicate
           country code, duplicate sector code, '__' in a local name, '__' in a sector code, a market
-          without / with two candidate suppliers, a cash flow across currencies without ExternalSector
+          without / with two candidate suppliers, a cash flow across currencies without ExternalSector;
+          configured markets (MarketCfgs: 0..2 local candidates x residual supplier named 0 / 1 / 2 times x
+          rule-based supplier none / local candidate / other local sector / foreign sector with the same
+          short code / foreign sector with another code): ill-formed iff no residual supplier is named and
+          the search does not find exactly one candidate.  Naming the residual supplier twice is an
+          override (the last call counts), which the code accepts; the spec classes it as well formed.
   property clause C11_RejectsInvalid: an exception is raised (anywhere up to and including
           ParseString+SolveEquation / Model.main()) and no non-exogenous series has a k >= 1 entry.
           Where the exception comes is conformance only.
@@ -142,7 +147,8 @@ def execute_block(beh, name):
     from sfc_models.equation_solver import EquationSolver
     events = [{'ev': 'Begin', 'world': 'block'}]
     for d in beh['decls']:
-        events.append({'ev': 'Declare', 'kind': d['kind'], 'valid': bool(d['valid']), 'raised': False})
+        events.append({'ev': 'Declare', 'kind': d['kind'], 'valid': bool(d['valid']), 'raised': False,
+                       'cand': 0, 'named': 0, 'rule': 'none'})
     text = block_text(beh['decls'], name)
     s = EquationSolver()
     raised = False
@@ -159,6 +165,37 @@ def execute_block(beh, name):
 
 UU_LOCAL = ['A__B', '__A', 'A__', 'A___B']
 UU_SECTOR = ['H__X', 'X__', '__X']
+
+
+def declare_market(m, c1, hh, cfg):
+    """A configured goods market in country C1 (spec/Reject.tla, MarketCfgs): `cand` local sectors carry
+    SUP_GOOD, the residual supplier is named `named` times, one rule-based supplier may be added.  The second
+    country shares the currency, so a supplier from there needs no ExternalSector."""
+    from sfc_models.models import Country
+    from sfc_models.sector import Sector, Market
+    hh.AddVariable('DEM_GOOD', 'demand for goods', '10.0')
+    mk = Market(c1, 'GOOD', 'GOOD')
+    cands = []
+    for code in ('BUS', 'B2')[:int(cfg['cand'])]:
+        b = Sector(c1, code, code)
+        b.AddVariable('SUP_GOOD', 'supply of goods', '')
+        cands.append(b)
+    other = Sector(c1, 'OTH', 'OTH')
+    rule = cfg['rule']
+    target = None
+    if rule in ('foreign_same', 'foreign_diff'):
+        c2 = Country(m, 'S1', 'S1', currency=c1.Currency)
+        target = Sector(c2, 'BUS' if rule == 'foreign_same' else 'FB', 'foreign business')
+    elif rule == 'local_cand':
+        target = cands[0]
+    elif rule == 'local_other':
+        target = other
+    # residual supplier named 0, 1 or 2 times (the last call counts)
+    pool = cands + [other]
+    for i in range(int(cfg['named'])):
+        mk.AddSupplier(pool[(int(cfg['named']) - 1 - i) % len(pool)])
+    if target is not None:
+        mk.AddSupplier(target, '0.25*DEM_GOOD')
 
 
 def execute_model(beh, variant=0):
@@ -197,6 +234,8 @@ def execute_model(beh, variant=0):
                 for code in ('B1', 'B2'):
                     b = Sector(c1, code, code)
                     b.AddVariable('SUP_GOOD', 'supply', '<TO BE DETERMINED>')
+            elif kind == 'market':
+                declare_market(m, c1, hh, d['cfg'])
             elif kind == 'cross_currency_flow':
                 c2 = Country(m, 'F1', 'F1', currency='FOR')
                 f = Sector(c2, 'HH', 'HH')
@@ -209,8 +248,11 @@ def execute_model(beh, variant=0):
         except Exception as e:
             raised = True
             what = type(e).__name__
-        program.append(kind)
-        events.append({'ev': 'Declare', 'kind': kind, 'valid': bool(d['valid']), 'raised': raised, 'exc_type': what})
+        program.append(kind if kind != 'market' else 'Market(GOOD): %d local candidates, residual named %dx, rule-based supplier %s' % (
+            int(d['cfg']['cand']), int(d['cfg']['named']), d['cfg']['rule']))
+        cfg = d.get('cfg') or {'cand': 0, 'named': 0, 'rule': 'none'}
+        events.append({'ev': 'Declare', 'kind': kind, 'valid': bool(d['valid']), 'raised': raised, 'exc_type': what,
+                       'cand': int(cfg['cand']), 'named': int(cfg['named']), 'rule': cfg['rule']})
         if raised:
             stopped = True          # the user's script ends here
             break
@@ -233,7 +275,8 @@ def reject_for_tla(events):
         if e['ev'] == 'Begin':
             out.append({'ev': 'Begin', 'world': e['world']})
         elif e['ev'] == 'Declare':
-            out.append({'ev': 'Declare', 'kind': e['kind'], 'valid': e['valid'], 'raised': e['raised']})
+            out.append({'ev': 'Declare', 'kind': e['kind'], 'valid': e['valid'], 'raised': e['raised'],
+                        'cand': e['cand'], 'named': e['named'], 'rule': e['rule']})
         else:
             out.append({'ev': 'Main', 'raised': e['raised'], 'numbers': e['numbers']})
     return out
@@ -283,6 +326,9 @@ def run_reject_item(it):
 
 def reject_signature(it, events):
     kind = invalid_kind(it['behaviour'])
+    if kind == 'market':
+        cfg = [d for d in it['behaviour']['decls'] if d['kind'] == 'market'][0]['cfg']
+        kind = 'market-%s-rule-%s' % ('no-candidate' if cfg['cand'] == 0 else 'two-candidates-none-named', cfg['rule'])
     main = [e for e in events if e['ev'] == 'Main']
     how = 'numbers-produced' if (main and main[-1]['numbers']) else 'no-exception'
     if it['name'] is not None:
